@@ -1,3 +1,374 @@
 package symex
 
-func (c *Ctx) registerReductions(tab map[string]intrinsicFn) {}
+import (
+	"fmt"
+	"go/types"
+	"math"
+	"sort"
+
+	"verif/engine/smt"
+
+	"golang.org/x/tools/go/ssa"
+	"gorgonia.org/tensor"
+)
+
+// Ports of gorgonia's reduction and softmax kernels (tensor@v0.9.24):
+//   internal/execution/generic_argmethods.go  (ArgmaxT)
+//   defaultengine_argmethods.go               (argmaxDenseTensor: slices along the axis, row-major over the rest)
+//   defaultengine_mapreduce.go / generic_minmax.go (Max/Min)
+//   defaultengine_softmax.go                  (softMaxLastDim / softMaxInnerDim, incl. their quirks)
+
+func (c *Ctx) gtTerm(dt tensor.Dtype, a, b *smt.Term) *smt.Term {
+	st := c.St
+	switch a.Sort.K {
+	case smt.KBV:
+		if dtypeSigned(dt) {
+			return st.BVSLt(b, a)
+		}
+		return st.BVULt(b, a)
+	case smt.KReal:
+		return st.RLt(b, a)
+	}
+	return st.FPLt(b, a)
+}
+
+// argmaxSlice ports ArgmaxT on one slice.
+func (c *Ctx) argmaxSlice(dt tensor.Dtype, a []*smt.Term) *smt.Term {
+	st := c.St
+	f := a[0]
+	m := st.BVC(64, 0)
+	done := st.False()
+	res := st.BVC(64, 0)
+	for i := 1; i < len(a); i++ {
+		v := a[i]
+		idx := st.BVC(64, uint64(i))
+		if v.Sort.IsFP() {
+			// if IsNaN(v) || IsInf(v, 1) { return i }
+			var pinf *smt.Term
+			if v.Sort.K == smt.KFP32 {
+				pinf = st.F32C(float32(math.Inf(1)))
+			} else {
+				pinf = st.F64C(math.Inf(1))
+			}
+			stop := st.And(st.Not(done), st.Or(st.FPIsNaN(v), st.Eq(v, pinf)))
+			res = st.Ite(stop, idx, res)
+			done = st.Or(done, stop)
+		}
+		gt := st.And(st.Not(done), c.gtTerm(dt, v, f))
+		m = st.Ite(gt, idx, m)
+		f = st.Ite(gt, v, f)
+	}
+	return st.Ite(done, res, m)
+}
+
+func (c *Ctx) argmax(fn *ssa.Function, a []Value) Value {
+	c.E.Stubs["tensor.Argmax"]++
+	s := c.asShadow(a[0])
+	if s == nil {
+		panic(c.goPanic("Argmax of nil tensor"))
+	}
+	axis := int(c.concInt(a[1].(*smt.Term), "Argmax axis"))
+	var res tensor.Tensor
+	var err error
+	if p := c.nativeCall("Argmax", func() { res, err = tensor.Argmax(s.twin, axis) }); p != nil {
+		panic(p)
+	}
+	if err != nil {
+		return c.retTensorErr(nil, err, fn.Signature)
+	}
+	shape := s.ids.Shape()
+	ts := c.logicalTerms(s)
+	if axis == -1 {
+		// tensor.AllAxes: flat argmax over the whole array
+		rd := res.(*tensor.Dense)
+		if !rd.IsScalar() || rd.Dtype() != tensor.Int || s.ids.RequiresIterator() {
+			panic(c.abort("flat Argmax produced %v %v: outside the model", rd.Dtype(), rd.Shape()))
+		}
+		return c.retTensorErr(c.finishResult(res, funcOpts{}, tensor.Int, []*smt.Term{c.argmaxSlice(s.dt, ts)}), nil, fn.Signature)
+	}
+	if axis < 0 || axis >= len(shape) {
+		panic(c.abort("Argmax accepted axis %d for shape %v: outside the model", axis, shape))
+	}
+	var outShape []int
+	for i, d := range shape {
+		if i != axis {
+			outShape = append(outShape, d)
+		}
+	}
+	n := 1
+	for _, d := range outShape {
+		n *= d
+	}
+	slices := make([][]*smt.Term, n)
+	for li, co := range coordsOf(shape) {
+		oi := 0
+		for i, d := range shape {
+			if i != axis {
+				oi = oi*d + co[i]
+			}
+		}
+		slices[oi] = append(slices[oi], ts[li])
+	}
+	out := make([]*smt.Term, n)
+	for i := range out {
+		out[i] = c.argmaxSlice(s.dt, slices[i])
+	}
+	rd := res.(*tensor.Dense)
+	if rd.Dtype() != tensor.Int || rd.Shape().TotalSize() != n {
+		panic(c.abort("Argmax: gorgonia produced %v %v, model has %d values", rd.Dtype(), rd.Shape(), n))
+	}
+	return c.retTensorErr(c.finishResult(res, funcOpts{}, tensor.Int, out), nil, fn.Signature)
+}
+
+func (c *Ctx) minMaxMethod(isMax bool) tensorMethod {
+	return func(c *Ctx, s *Shadow, args []Value, sig *types.Signature) Value {
+		axes := c.intsOf(args[0], "Max/Min axes")
+		var res *tensor.Dense
+		var err error
+		if p := c.nativeCall("Max/Min", func() {
+			if isMax {
+				res, err = s.twin.Max(axes...)
+			} else {
+				res, err = s.twin.Min(axes...)
+			}
+		}); p != nil {
+			panic(p)
+		}
+		if err != nil {
+			return c.retTensorErr(nil, err, sig)
+		}
+		so, _ := c.elemSort(s.dt)
+		if so.IsFP() {
+			c.E.Assumptions["Dense.Max/Min: modelled as pairwise (b > a ? b : a) folds in index order; gorgonia's three reduction kernels differ only in how NaN operands are ordered (harnesses assume NaN-free input for ReduceMax/ReduceMin)"] = true
+		}
+		ax := append([]int{}, axes...)
+		sort.Ints(ax)
+		for i, a := range ax {
+			if a < 0 || a >= s.ids.Dims() || (i > 0 && ax[i-1] == a) {
+				// gorgonia accepted an axis outside the tensor's rank: what it computes then is not
+				// modelled; the result is left unconstrained (fresh symbols of the result's shape)
+				c.E.Assumptions["Dense.Max/Min with an axis outside [0,rank) or a repeated axis: result values unconstrained (havoc)"] = true
+				n := res.Shape().TotalSize()
+				out := make([]*smt.Term, n)
+				for i := range out {
+					c.fresh++
+					out[i] = c.St.Sym(fmt.Sprintf("havoc#%d", c.fresh), so)
+				}
+				return c.retTensorErr(c.finishResult(res, funcOpts{}, s.dt, out), nil, sig)
+			}
+		}
+		out := c.reduce(s, ax, func(acc, x *smt.Term) *smt.Term {
+			if isMax {
+				return c.St.Ite(c.gtTerm(s.dt, x, acc), x, acc)
+			}
+			return c.St.Ite(c.gtTerm(s.dt, acc, x), x, acc)
+		})
+		if len(out) != res.Shape().TotalSize() {
+			panic(c.abort("Max/Min: %d values for result shape %v", len(out), res.Shape()))
+		}
+		return c.retTensorErr(c.finishResult(res, funcOpts{}, s.dt, out), nil, sig)
+	}
+}
+
+func (c *Ctx) subTerms(so smt.Sort, x, y *smt.Term) *smt.Term {
+	switch so.K {
+	case smt.KReal:
+		return c.St.RSub(x, y)
+	}
+	return c.St.FPSub(x, y)
+}
+
+func (c *Ctx) softmax(fn *ssa.Function, a []Value, logSoftMax bool) Value {
+	name := "SoftMax"
+	if logSoftMax {
+		name = "LogSoftMax"
+	}
+	c.E.Stubs["tensor."+name]++
+	s := c.asShadow(a[0])
+	if s == nil {
+		panic(c.goPanic("%s of nil tensor", name))
+	}
+	axis := int(c.concInt(a[1].(*smt.Term), name+" axis"))
+	fo := c.funcOpts(a[2])
+	if fo.reuse != nil {
+		panic(c.abort("%s WithReuse", name))
+	}
+	var res tensor.Tensor
+	var err error
+	if p := c.nativeCall(name, func() {
+		if logSoftMax {
+			res, err = tensor.LogSoftMax(s.twin, axis)
+		} else {
+			res, err = tensor.SoftMax(s.twin, axis)
+		}
+	}); p != nil {
+		panic(p)
+	}
+	if err != nil {
+		return c.retTensorErr(nil, err, fn.Signature)
+	}
+	st := c.St
+	so, _ := c.elemSort(s.dt)
+	shape := s.ids.Shape()
+	dims := len(shape)
+	if dims == 0 || s.ids.IsScalar() {
+		panic(c.abort("%s of a scalar: outside the model", name))
+	}
+	// resolveAxis
+	ax := axis % dims
+	if ax < 0 {
+		ax += dims
+	}
+	// the kernels work on the raw backing arrays
+	raw, ok := s.ids.Data().([]int64)
+	if !ok || len(raw) != shape.TotalSize() || s.ids.RequiresIterator() {
+		panic(c.abort("%s on a non-contiguous tensor: outside the model", name))
+	}
+	x := make([]*smt.Term, len(raw))
+	for i, id := range raw {
+		x[i] = c.termOfID(id, so)
+	}
+	out := make([]*smt.Term, len(raw))
+	exp := func(z *smt.Term) *smt.Term {
+		if so.K == smt.KReal {
+			return c.expReal(z)
+		}
+		return c.mathUF("exp", z)
+	}
+	logf := func(z *smt.Term) *smt.Term {
+		if so.K == smt.KReal {
+			return st.App("log_r", smt.Real, z)
+		}
+		return c.mathUF("log", z)
+	}
+	zero := st.Zero(so)
+	one := c.one(so)
+	div := func(p, q *smt.Term) *smt.Term {
+		if so.K == smt.KReal {
+			return st.RDiv(p, q)
+		}
+		return st.FPDiv(p, q)
+	}
+	gt := func(p, q *smt.Term) *smt.Term { return c.gtTerm(s.dt, p, q) }
+	dimSize := shape[ax]
+	outer := 1
+	for i := 0; i < ax; i++ {
+		outer *= shape[i]
+	}
+	if ax == dims-1 {
+		// softMaxLastDim
+		for ii := 0; ii < outer; ii++ {
+			maxInput := x[0] // sic: the first element of the whole array, not of the row
+			for j := 1; j < dimSize; j++ {
+				i := ii*dimSize + j
+				maxInput = st.Ite(gt(x[i], maxInput), x[i], maxInput)
+			}
+			sumExp := zero
+			for j := 0; j < dimSize; j++ {
+				i := ii*dimSize + j
+				z := c.subTerms(so, x[i], maxInput)
+				e := exp(z)
+				if logSoftMax {
+					out[i] = z
+				} else {
+					out[i] = e
+				}
+				sumExp = c.addTerms(so, sumExp, e)
+			}
+			if !logSoftMax {
+				sumExp = div(one, sumExp)
+			}
+			for j := 0; j < dimSize; j++ {
+				i := ii*dimSize + j
+				if logSoftMax {
+					out[i] = c.subTerms(so, out[i], logf(sumExp))
+				} else {
+					out[i] = c.mulTerms(so, out[i], sumExp)
+				}
+			}
+		}
+	} else {
+		inner := 1
+		for i := ax + 1; i < dims; i++ {
+			inner *= shape[i]
+		}
+		dimStride := inner
+		outerStride := dimSize * dimStride
+		for ii := 0; ii < inner*outer; ii++ {
+			oi, in := ii/inner, ii%inner
+			base := oi*outerStride + in
+			maxInput := x[base]
+			for j := 1; j < dimSize; j++ {
+				i := base + j*dimStride
+				maxInput = st.Ite(gt(x[i], maxInput), x[i], maxInput)
+			}
+			sumExp := zero
+			for j := 0; j < dimSize; j++ {
+				i := base + j*dimStride
+				e := exp(c.subTerms(so, x[i], maxInput))
+				if !logSoftMax {
+					out[i] = e
+				}
+				sumExp = c.addTerms(so, sumExp, e)
+			}
+			if logSoftMax {
+				sumExp = logf(sumExp)
+			} else {
+				sumExp = div(one, sumExp)
+			}
+			for j := 0; j < dimSize; j++ {
+				i := base + j*dimStride
+				if logSoftMax {
+					out[i] = c.subTerms(so, c.subTerms(so, x[i], maxInput), sumExp)
+				} else {
+					out[i] = c.mulTerms(so, out[i], sumExp)
+				}
+			}
+		}
+	}
+	return c.retTensorErr(c.finishResult(res, funcOpts{}, s.dt, out), nil, fn.Signature)
+}
+
+// expReal: exp over the reals as an uninterpreted function with exp(x) > 0.
+func (c *Ctx) expReal(z *smt.Term) *smt.Term {
+	st := c.St
+	if z.IsConst() && z.R.Sign() == 0 {
+		return st.RealI(1)
+	}
+	r := st.App("exp_r", smt.Real, z)
+	if c.spec == 0 {
+		if c.axiomDone == nil {
+			c.axiomDone = map[int64]bool{}
+		}
+		if !c.axiomDone[r.ID] {
+			c.axiomDone[r.ID] = true
+			c.assume(st.RLt(st.RealI(0), r))
+			c.E.Assumptions["exp over the reals: exp(x) > 0, exp(0) = 1"] = true
+		}
+	}
+	return r
+}
+
+func (c *Ctx) registerReductions(tab map[string]intrinsicFn) {
+	const P = "gorgonia.org/tensor."
+	tab[P+"Argmax"] = func(c *Ctx, fn *ssa.Function, a []Value) Value { return c.argmax(fn, a) }
+	tab[P+"SoftMax"] = func(c *Ctx, fn *ssa.Function, a []Value) Value { return c.softmax(fn, a, false) }
+	tab[P+"LogSoftMax"] = func(c *Ctx, fn *ssa.Function, a []Value) Value { return c.softmax(fn, a, true) }
+	for _, isMax := range []bool{true, false} {
+		name := "Min"
+		if isMax {
+			name = "Max"
+		}
+		m := c.minMaxMethod(isMax)
+		tensorMethods[name] = m
+		h := func(c *Ctx, fn *ssa.Function, a []Value) Value {
+			s := c.asShadow(a[0])
+			if s == nil {
+				panic(c.goPanic("nil *Dense receiver for %s", fn.Name()))
+			}
+			c.E.Stubs["tensor."+fn.Name()]++
+			return m(c, s, a[1:], fn.Signature)
+		}
+		tab["(*gorgonia.org/tensor.Dense)."+name] = h
+	}
+}
